@@ -22,20 +22,22 @@ import (
 var kindNames = []string{"nil", "int", "float", "string", "array", "bool", "function"}
 
 type tab struct {
-	p      *load.Program
-	s      *oblig.Set
-	valT   types.Type
-	vst    *types.Struct
-	fTyp   int
-	fMorph int
-	fPtr   int
-	kinds  map[string]int64 // nilT.. -> value
-	kname  map[int64]string
-	ops    map[string]int64
-	opName map[int64]string
-	paths  int
-	divs   map[string]bool // positions of integer divisions executed with a possibly-zero divisor
-	shifts map[string]bool // shifts by a signed, possibly negative count (Go panics)
+	unprovedIdx map[string]string // operator method / expression -> "pos|description"
+	nIdx        int
+	p           *load.Program
+	s           *oblig.Set
+	valT        types.Type
+	vst         *types.Struct
+	fTyp        int
+	fMorph      int
+	fPtr        int
+	kinds       map[string]int64 // nilT.. -> value
+	kname       map[int64]string
+	ops         map[string]int64
+	opName      map[int64]string
+	paths       int
+	divs        map[string]bool // positions of integer divisions executed with a possibly-zero divisor
+	shifts      map[string]bool // shifts by a signed, possibly negative count (Go panics)
 }
 
 // Outcome is one classified path.
@@ -63,7 +65,7 @@ func (o Outcome) String() string {
 
 func Run(p *load.Program, tier string) *oblig.Set {
 	s := oblig.NewSet()
-	t := &tab{p: p, s: s, divs: map[string]bool{}, shifts: map[string]bool{}}
+	t := &tab{p: p, s: s, divs: map[string]bool{}, shifts: map[string]bool{}, unprovedIdx: map[string]string{}}
 	if !t.anchors() {
 		return s
 	}
@@ -378,6 +380,15 @@ func (t *tab) evalMethod(fn *ssa.Function, args func(in *absint.Interp) []absint
 		}
 		res, end := in.Run(fn, args(in))
 		t.paths++
+		for _, ix := range in.IdxLog {
+			t.nIdx++
+			if !ix.Proved {
+				k := t.p.FuncKey(fn) + " / " + ix.Kind + " of " + ix.X
+				if _, dup := t.unprovedIdx[k]; !dup {
+					t.unprovedIdx[k] = t.p.Pos(ix.Site.Pos()) + "|" + ix.String()
+				}
+			}
+		}
 		oc := Outcome{}
 		for _, c := range in.CondV {
 			oc.Conds = append(oc.Conds, t.canonCond(c))
